@@ -62,18 +62,27 @@ impl<C: CellType> BcInterpreter<C> {
         let mut insts = Vec::new();
         for &inst in &self.bytecode.insts {
             inst_start.push(insts.len());
+            let mut skip_scan = None;
             if limited {
                 if let Instr::BrZ(_, _) | Instr::BrNZ(_, _) = inst {
                     emit_limit(&mut insts, 1);
                 }
-                if let Instr::Scan(_, shift) = inst {
+                if let Instr::Scan(cond, shift) = inst {
                     if shift == 0 {
+                        // A stationary scan either does nothing or never returns.
+                        // Only the latter may use up the budget.
+                        skip_scan = Some(insts.len());
+                        emit(&mut insts, Instr::BrZ(cond, 0), safe);
                         emit_limit(&mut insts, usize::MAX);
                     }
                 }
             }
             inst_offset.push(insts.len());
             emit(&mut insts, inst, safe);
+            if let Some(skip) = skip_scan {
+                let offset = (insts.len() - skip) as isize;
+                adjust_branch(&mut insts[skip..], offset);
+            }
         }
         inst_start.push(insts.len());
         inst_offset.push(insts.len());
